@@ -13,7 +13,10 @@ what is shared is therefore part of the model:
   * `System.copy`        allocates a fresh reference with the same field values.  The copy is
                          SHALLOW: the `order` list object is shared (`orderObj` is the identity
                          of that list object; in-place `order[0] = x` is visible through every
-                         System holding the same list object).
+                         System holding the same list object), and so are the numpy arrays `pos`,
+                         `vel`, `box` and the `temperature` dict (`posObj` … `tempObj`; in-place
+                         `pos[0] = x` = `Heap.setArrItem`, re-assignment `pos = …` = `Heap.setArr`
+                         gives the System a fresh container).
   * `Path.append`        stores the given reference (no copy).
   * `Path.__iadd__`      copies each frame of `other` (and stops at the first failed append,
                          after having made one unused copy).
@@ -22,6 +25,12 @@ what is shared is therefore part of the model:
                          `rev_v`, and, when an order function is given that is velocity dependent
                          and `rev_v`, re-assigns `order` of every frame of the new path.
   * `paste_paths`        re-uses the references of both segments (no copy at all).
+
+Extension pass: `Path.__eq__` / `__ne__` (`Path.eq`, frames compared by identity), `get_shooting_point`
+(`shootRequest`, `shootingPoint`: the draw is an argument), `update_energies` (`updateEnergies`),
+`empty_path` with omitted keywords (`Path.emptyPath`), `adress`, `reverse_velocities`, the warnings of
+`paste_paths` / `__iadd__` (`pasteWarnings`, `iaddWarnings`: which loop gave up), and the class /
+attribute-name set of a path object (`PMeta`, kept by the machine).
 
 Order parameters, energies and the opaque numeric fields are `Int` (the harness feeds
 integer-valued floats).  No imports: this file is compiled into the native driver.
